@@ -44,7 +44,7 @@ P = {
         "name": "schema", "pkg": "./internal/rules/mechanisms", "test": "TestVerifC20Schema",
         "overlay": {"internal/rules/mechanisms/zz_verif_c20_schema_test.go": "c20/c20_schema_test.go"},
         "eval_module": "Run.Eval_C20", "check_term": "check_schema fixed_F1a fixed_F1b",
-        "n_quick": 0, "n_thorough": 0, "findings": {}, "env": {"VERIF_C20_PROBES": PROBES},
+        "n_quick": 0, "n_thorough": 0, "findings": {6: "C20-F6"}, "env": {"VERIF_C20_PROBES": PROBES},
         "escalate": False,
     }],
     "generators": [gen_schema_tables],
@@ -52,7 +52,7 @@ P = {
         "name": "meta", "pkg": "./internal/config", "test": "TestVerifC20Meta",
         "overlay": {"internal/config/zz_verif_c20_meta_test.go": "c20/c20_meta_test.go"},
         "eval_module": "Run.Eval_C20", "check_term": "check_meta",
-        "n_quick": 120, "n_thorough": 1500, "findings": {4: "C20-F4", 5: "C20-F5", 6: "C20-F6"}, "escalate": False,
+        "n_quick": 120, "n_thorough": 1500, "findings": {4: "C20-F4", 5: "C20-F5", 6: "C20-F6"}, "escalate": False, "shard": 10,
     },
     "rule": "generated configurations (1-3 top-level fields, maps/lists/scalars nested up to depth 4, 27 scalar texts incl. "
             "0123/1e3/0x10/quoted) with every leaf assigned to a temporary YAML file or to the process environment (modes allfile/"
